@@ -86,13 +86,17 @@ var knownList []lib.Known
 
 // texts printed by object cases, kept as seeds of the text stream
 var seedMu sync.Mutex
-var seedTexts [][]byte
+var seedTexts = map[string]struct{}{}
 
+// keepSeed keeps a fixed (hash-selected) subset of the printed texts: independent of scheduling.
 func keepSeed(b []byte) {
-	seedMu.Lock()
-	if len(seedTexts) < 4000 {
-		seedTexts = append(seedTexts, append([]byte{}, b...))
+	h := fnv.New64a()
+	h.Write(b)
+	if h.Sum64()%8 != 0 {
+		return
 	}
+	seedMu.Lock()
+	seedTexts[string(b)] = struct{}{}
 	seedMu.Unlock()
 }
 
@@ -272,6 +276,23 @@ func evalScript(s *jp.Script, data []any) []string {
 		out = append(out, m, e)
 	}
 	return out
+}
+
+// overlap reports whether two evaluations that differed once can agree when repeated: then the evaluator
+// is not deterministic on this input (results depend on map iteration order) and the difference says
+// nothing about the two objects.
+func overlap(a, b func() string) bool {
+	as, bs := map[string]bool{}, map[string]bool{}
+	for i := 0; i < 12; i++ {
+		as[a()] = true
+		bs[b()] = true
+	}
+	for k := range as {
+		if bs[k] {
+			return true
+		}
+	}
+	return false
 }
 
 func sameStrings(a, b []string) (bool, int) {
@@ -542,10 +563,15 @@ func (w *work) judgeExpr() {
 				origEval = evalExpr(w.x, data)
 			}
 			if same, at := sameStrings(origEval, evalExpr(y, data)); !same {
-				if verdict == "" {
-					verdict = "eval-differs"
+				if overlap(func() string { return evalExpr(w.x, data[at:at+1])[0] }, func() string { return evalExpr(y, data[at:at+1])[0] }) {
+					// jp.Get itself is not a function of (expression, data) here (map iteration order): not C14's subject
+					rep.Count("oracle.evaluator_nondeterministic", 1)
+				} else {
+					if verdict == "" {
+						verdict = "eval-differs"
+					}
+					extra["data"] = lib.Render(data[at])
 				}
-				extra["data"] = lib.Render(data[at])
 			}
 		}
 		rep.Count("oracle.expr."+mode+"."+map[bool]string{true: "ok", false: "fails"}[verdict == ""], 1)
@@ -697,10 +723,19 @@ func (w *work) judgeEqn() {
 				orig = evalF
 			}
 			if same, at := sameStrings(orig, evalScript(scNew, data)); !same {
-				if verdict == "" {
-					verdict = "eval-differs"
+				oldSc := origScript
+				if i != 1 {
+					oldSc = &origFilter.Script
 				}
-				extra["data"] = lib.Render(data[at/2])
+				one := data[at/2 : at/2+1]
+				if overlap(func() string { return strings.Join(evalScript(oldSc, one), "|") }, func() string { return strings.Join(evalScript(scNew, one), "|") }) {
+					rep.Count("oracle.evaluator_nondeterministic", 1)
+				} else {
+					if verdict == "" {
+						verdict = "eval-differs"
+					}
+					extra["data"] = lib.Render(data[at/2])
+				}
 			}
 		}
 		rep.Count("oracle.eqn."+names[i]+"."+map[bool]string{true: "ok", false: "fails"}[verdict == ""], 1)
